@@ -131,6 +131,15 @@ def build_sqlite(g, d, name='m', use_latlon=False, how='bulk', **kw):
         # the last writing operation is a bulk insert without indexing (neighbour queries see the edges, box queries do not)
         m.add_nodes(nodes)
         m.add_edges(edges, no_index=True)
+    elif how == 'readd-doubles':
+        # an import that meets every node a second time (ways share nodes) with ignore_doubles=True - the second sighting carries
+        # the coordinates of ANOTHER node: a double is ignored, the map is the one of the first sightings
+        for k, p in nodes:
+            m.add_node(k, p)
+        for i, (k, p) in enumerate(nodes):
+            m.add_node(k, nodes[(i + 1) % len(nodes)][1], ignore_doubles=True)
+        for a, b in edges:
+            m.add_edge(a, b)
     elif how == 'mixed':
         half = len(nodes) // 2
         m.add_nodes(nodes[:half])
@@ -199,7 +208,7 @@ def case_C11(seed):
         import copy
         U.quiet()
         import io, contextlib
-        how11 = rnd.choice(['bulk', 'single']) if seed % 4 else ['deferred', 'import', 'bulk2'][(seed // 4) % 3]
+        how11 = rnd.choice(['bulk', 'single']) if seed % 4 else ['deferred', 'import', 'bulk2', 'readd-doubles'][(seed // 4) % 4]
         pts = [v[0] for v in g.values()]
         unit = {'unit': 1.0, '1e7': 3.0, 'deg': 200.0, 'deg-rim': 200.0}[scale]      # typical length in the metric's unit
         grown = seed % 3 == 1 and rim is None and len(g) >= 3
@@ -395,7 +404,7 @@ def case_C12(seed):
         from leuvenmapmatching.map.inmem import InMemMap
         import copy, io, contextlib
         U.quiet()
-        how = rnd.choice(['bulk', 'single', 'deferred']) if seed % 4 else ['import', 'bulk2', 'deferred'][(seed // 4) % 3]
+        how = rnd.choice(['bulk', 'single', 'deferred']) if seed % 4 else ['import', 'bulk2', 'deferred', 'readd-doubles'][(seed // 4) % 4]
         grown = seed % 3 == 0 and len(g) >= 3
         ys = [v[0][0] for v in g.values()]
         xs = [v[0][1] for v in g.values()]
@@ -485,7 +494,7 @@ def case_C18(seed):
     viol = []
     how = rnd.choice(['bulk', 'single', 'deferred', 'mixed', 'bulk-noindex-last'])
     if seed % 5 == 3:
-        how = ['import', 'bulk2', 'nocommit-then-duplicate'][(seed // 5) % 3]
+        how = ['import', 'bulk2', 'nocommit-then-duplicate', 'readd-doubles'][(seed // 5) % 4]
     crs = rnd.choice([{}, {}, {'crs_lonlat': 'EPSG:4258', 'crs_xy': 'EPSG:31370'}])
     cycles = rnd.choice([1, 2, 3])
     try:
@@ -557,3 +566,76 @@ def case_C18(seed):
         shutil.rmtree(d, ignore_errors=True)
     return {'nontrivial': how in ('deferred', 'mixed') or not use_latlon, 'violations': viol,
             'sample': {'how': how, 'use_latlon': use_latlon, 'crs': crs, 'cycles': cycles, 'nodes': len(g)}}
+
+
+# ================================================================================================== C12: edge identity on a large import
+def edge_identity_suite(chk, tier, seed):
+    """The SQLite backend files every directed edge under an id derived from its two labels and recomputes that id when it
+    looks an edge up: two edges with the same id are one row.  (a) a large import - n nodes with irregular 10-digit labels
+    (OSM-like), every ordered pair an edge, loaded edge by edge - must list the same edges as the in-memory map: with about
+    2e5 edges any id narrower than about 40 bits collides with near certainty (birthday bound), (b) small integer labels
+    around zero, where the host language's hash of integers is not injective."""
+    import tempfile, shutil, random as _r
+    from leuvenmapmatching.map.sqlite import SqliteMap
+    U.quiet()
+    n_maps = 1 if tier == 'quick' else 4
+    evals = 0
+    for k in range(n_maps):
+        rnd = _r.Random(seed * 7919 + k)
+        n = 450 if tier == 'quick' else 520
+        labels = sorted({rnd.randrange(10 ** 9, 10 ** 10) if k % 2 == 0 else rnd.randrange(1, 10 ** 7) for _ in range(n)})
+        d = tempfile.mkdtemp(prefix='c12big_')
+        try:
+            m = SqliteMap('big', use_latlon=False, dir=d)
+            m.add_nodes([(l, (float(i % 23), float(i // 23))) for i, l in enumerate(labels)])
+            expected = 0
+            for a in labels:
+                for b in labels:
+                    if a != b:
+                        m.add_edge(a, b, no_index=True, no_commit=True)
+                        expected += 1
+            m.db.commit()
+            got = m.db.execute('SELECT count(*) FROM edges').fetchone()[0]
+            evals += expected
+            if got != expected:
+                # name the lost edges through the public accessor
+                lost = []
+                for a in labels:
+                    nb = {x[0] for x in m.nodes_nbrto(a)}
+                    if len(nb) != len(labels) - 1:
+                        lost += [(a, b) for b in labels if b != a and b not in nb][:3]
+                    if len(lost) >= 3:
+                        break
+                chk.violation(key='C12:large-import-loses-edges(edge-id-collision)',
+                              text=f"{len(labels)} nodes with {'10-digit' if k % 2 == 0 else '7-digit'} labels, every ordered pair added with add_edge: the in-memory map holds {expected} edges, "
+                                   f"the SQLite map {got}; e.g. nodes_nbrto misses {lost[:3]}",
+                              replay={'kind': 'bounded', 'suite': 'edge-identity', 'labels_seed': seed * 7919 + k, 'n': len(labels), 'expected_edges': expected,
+                                      'sqlite_edges': got, 'lost': lost[:3]})
+        finally:
+            shutil.rmtree(d, ignore_errors=True)
+    # (b) labels around zero
+    small = 0
+    for la, lb in ((-1, -2), (-2, -1), (0, -1), (-3, -2), (1, 2), (0, 2 ** 61 - 1), (5, 5 + 2 ** 61 - 1)):
+        d = tempfile.mkdtemp(prefix='c12small_')
+        try:
+            m = SqliteMap('small', use_latlon=False, dir=d)
+            for kk, p in ((la, (0.0, 0.0)), (lb, (0.0, 1.0)), (7, (1.0, 1.0))):
+                m.add_node(kk, p)
+            pairs = [(la, 7), (lb, 7), (7, la), (7, lb)]
+            for a, b in pairs:
+                m.add_edge(a, b)
+            got = sorted((e[0], e[2]) for e in m.all_edges())
+            small += 1
+            if got != sorted(pairs):
+                host = (la, 7).__hash__() == (lb, 7).__hash__()
+                chk.violation(key=f"C12:edge-dropped:labels-with-equal-host-hash" if host else 'C12:edge-dropped:small-labels',
+                              text=f"nodes {la}, {lb}, 7 and edges {pairs} added one by one: SqliteMap.all_edges() lists {got}",
+                              replay={'kind': 'bounded', 'suite': 'edge-identity', 'labels': [la, lb, 7], 'edges': pairs, 'sqlite_edges': got,
+                                      'hash_equal': host})
+        finally:
+            shutil.rmtree(d, ignore_errors=True)
+    chk.bounded_suite('edge-identity(large import + labels around zero)', evals + small, n_maps + small, [],
+                      rule=f"{n_maps} map(s) of 450-520 nodes with irregular 10-digit (OSM-like) or 7-digit integer labels drawn from VERIF_SEED, every ordered pair an edge "
+                           "(about 2e5-2.7e5 directed edges) added with add_edge: the edge count and the neighbour sets must be those of the in-memory map; "
+                           "plus 7 three-node maps with labels around zero and at the word boundary of the host's integer hash (-1/-2, 0/2^61-1)",
+                      bounds='ids narrower than about 40 bits collide with near certainty at this size; wider ids are only probed at the listed small labels')
